@@ -86,11 +86,18 @@ def exec_batch(task, cd):
     n = task['n']
     nl = task.get('final_newline', True)
     cd.write({'in0.txt': '', 'in1.txt': text_of(1, nl), 'inN.txt': text_of(n, nl)})
+    literal = task.get('source') == 'literal'      # the text held in memory (a string) instead of read from a file
+
+    def src(name):
+        if not literal:
+            return '-contents-of -rel-home in%s.txt' % name
+        t = text_of({'0': 0, '1': 1, 'N': n}[name], nl)
+        return '"%s"' % t.replace('\n', '@[NEW_LINE]@')
+
     lines = []
     for j, f in enumerate(task['filters']):
         for name in ('0', '1', 'N'):
-            lines.append('file o%d_%s.txt = -contents-of -rel-home in%s.txt -transformed-by filter %s'
-                         % (j, name, name, f))
+            lines.append('file o%d_%s.txt = %s -transformed-by filter %s' % (j, name, src(name), f))
     cd.write({'c.case': '[setup]\n' + '\n'.join(lines) + '\n'})
     r = inproc.run_main(['--keep', 'c.case'], cd)
     res = dict(exit=r['exit'], exception=r['exception'], stderr=r['stderr'][:400], outs=None)
@@ -175,13 +182,14 @@ def check_items(ctx, items, n, label, per_case=8):
     tasks = []
     for j in range(0, len(items), per_case):
         chunk = items[j:j + per_case]
-        tasks.append(dict(n=n, filters=[it['arg'] for it in chunk], final_newline=(j // per_case) % 2 == 0))
+        tasks.append(dict(n=n, filters=[it['arg'] for it in chunk], final_newline=(j // per_case) % 2 == 0,
+                          source='literal' if (j // per_case) % 4 >= 2 else 'file'))
     with ctx.pool() as pool:
         obs = pool.map('harness.props.c13:exec_batch', tasks, deadline=120, chunk=4)
         # a batch that did not PASS as a whole is re-run item by item (so that one bad item does not hide the others)
         redo = [(ti, k) for ti, o in enumerate(obs) if o.get('outs') is None for k in range(len(tasks[ti]['filters']))]
-        redo_tasks = [dict(n=n, filters=[tasks[ti]['filters'][k]], final_newline=tasks[ti]['final_newline'])
-                      for ti, k in redo]
+        redo_tasks = [dict(n=n, filters=[tasks[ti]['filters'][k]], final_newline=tasks[ti]['final_newline'],
+                           source=tasks[ti]['source']) for ti, k in redo]
         redo_obs = pool.map('harness.props.c13:exec_batch', redo_tasks, deadline=60, chunk=4) if redo else []
     single = {(ti, k): o for (ti, k), o in zip(redo, redo_obs)}
     bad = 0
@@ -210,7 +218,7 @@ def check_items(ctx, items, n, label, per_case=8):
                 bad += 1
                 ctx.fail('%s filter %s' % (clause.split(':')[0], farg),
                          dict(kind='filter', arg=farg, n=n, expected=it['exp'], observed=out, clause=clause,
-                              abstract=it.get('abstract'), final_newline=t['final_newline']))
+                              abstract=it.get('abstract'), final_newline=t['final_newline'], source=t['source']))
     ctx.cov['traces_validated_against_impl'] += len(items)
     ctx.cov.setdefault('replay', {})[label] = dict(cases=len(items), test_case_runs=len(tasks) + len(redo),
                                                    disagreements=bad)
@@ -320,7 +328,8 @@ def replay(ctx, rec):
         return 0
     with ctx.pool(workers=1) as pool:
         o = pool.map('harness.props.c13:exec_batch',
-                     [dict(n=r['n'], filters=[r['arg']], final_newline=r.get('final_newline', True))], deadline=60)[0]
+                     [dict(n=r['n'], filters=[r['arg']], final_newline=r.get('final_newline', True),
+                           source=r.get('source', 'file'))], deadline=60)[0]
     out = o['outs'][0] if o.get('outs') else None
     print(json.dumps(dict(arg=r['arg'], expected=r['expected'], observed=out, raw=o if out is None else None), indent=1))
     ok = out is not None and all(selected(out[k], l) == r['expected'][k] for k, l in (('0', 0), ('1', 1), ('N', r['n'])))
